@@ -41,6 +41,17 @@ UNITS = {
         "trusted": ["page_size crate linked but not reached by the harnesses", "pointer-to-integer casts as modelled by CBMC",
                     "zero-sized layouts excluded from size_align (16 % 32 != 0 for align >= 32; never requested)"],
     },
+    "timers": {
+        "file": "des/src/time/interval.rs",
+        "props": ["C05"],
+        "functions": ["MissedTickBehavior::next_timeout (Burst, Delay)"],
+        "harnesses": {
+            "next_timeout_burst_and_delay": "after a missed tick Burst schedules the next tick one period after the tick that was due, Delay one period after now, for every (due, now >= due, period) up to 500 years",
+        },
+        "trusted": ["interval.rs is included textually (include!) so that the private next_timeout is callable; des/src/time/mod.rs verbatim as its parent module",
+                    "Skip (now + period - (now - due) % period) is NOT proved: two 128-bit remainders exceed CBMC's budget here (no verdict in 25 min); it is covered by the bounded replay only",
+                    "serde / pin-project-lite linked, not reached"],
+    },
     "simtime": {
         "file": "des/src/time/mod.rs",
         "props": ["C02"],
